@@ -6,7 +6,7 @@ under `with project.check_changes():` on one long-lived Project([root]); the com
 requests are made a second time on a Project([root]) created at that moment (same process,
 same disk state, also under check_changes).  The two answers must be equal.
 
-Workload: (1) every history of length <= N over a 10-operation alphabet on two fixed
+Workload: (1) every history of length <= N over an 11-operation alphabet on two fixed
 4-module chains (vf/gen_hist.py: chain S = star-import chain, chain R = import/_ref chain),
 (2) random histories of length <= 40 on random projects.
 
@@ -268,6 +268,10 @@ def classify(spec, hist, i, a_long, a_fresh, differs_forward_only=None):
                 held = [x for x, _ in p[1:-1] if st['lm'][x] < t and any(st['lm'][x] < r < t for r in st['reqs'])]
                 if held:
                     star = '-star' if p[-1][1] == 'star' else ''
+                    if spec['modules'][M].get('shadow'):
+                        # a sub-module created next to a package attribute of the same name
+                        return ('created-submodule-shadows-package-attribute%s-dist%d' % (star, len(p) - 1), True,
+                                {'path': [[x, k] for x, k in p], 'importers_not_modified_since': held})
                     return ('created-after-failed-lookup%s-dist%d' % (star, len(p) - 1), True,
                             {'path': [[x, k] for x, k in p], 'importers_not_modified_since': held})
         for p in paths:
@@ -351,6 +355,8 @@ def run_history(spec, hist, part, compare, key, seen_mechs, selfcheck=False):
                     part.count('ops_without_effect')
                 else:
                     part.hist('modification_kind', kind)
+                    if kind == 'create' and spec['modules'][op[1]].get('shadow'):
+                        part.count('submodules_created_over_a_package_attribute')
                     if kind.endswith('-back'):
                         part.count('modifications_mtime_backward')
                     elif kind.endswith('-fwd'):
@@ -518,7 +524,7 @@ def main(run):
     alphabets = {}
     maxlen = run.pick(4, 6)
     # budget: number of exhaustive histories the tier can afford (see evidence 'enumerated')
-    budget = run.pick(12000, 260000)
+    budget = run.pick(14000, 260000)
     complete = True
     used = 0
     spent = 0
@@ -574,8 +580,9 @@ def main(run):
         else:
             break
     run.extra['enumerated'] = {
-        'fixed_chains': 'S: m star-imports a (+ from a import K_c), a star-imports b, b re-exports K_c,c_s from c and star-imports d (absent at start); '
-                        'R: m imports a (+ from a import b), a imports b, b re-exports from c and imports d (absent at start)',
+        'fixed_chains': 'S: m star-imports a (+ from a import K_c), a star-imports b, b re-exports K_c,c_s from the package c and star-imports d (absent at start); '
+                        'R: m imports a (+ from a import b), a imports b, b re-exports from the package c and imports d (absent at start); in both, '
+                        's = c/K_c.py (absent at start) is a sub-module named like the class K_c defined in c/__init__.py',
         'alphabets (E=rewrite with new content+mtime, T=touch, P=create-or-rewrite, R=request; lower case in a history = mtime moved backward)': alphabets,
         'levels': enumerated,
         'complete_up_to_length': full_to,
@@ -592,7 +599,8 @@ def main(run):
              'non-trivial = it contains a compared request that was issued after an earlier request and a later modification of a '
              'module at import distance >= 1 from the requested file, and whose fresh-project answer mentions generated identifiers',
         require=('requests_compared', 'requests_nontrivial', 'answers_equal', 'fresh_vs_fresh_checks', 'histories_random',
-                 'modifications_mtime_forward', 'modifications_mtime_backward'),
+                 'modifications_mtime_forward', 'modifications_mtime_backward',
+                 'submodules_created_over_a_package_attribute'),
         assumptions=[
             'oracle = Project([root]) created after the last write, asked the same request in the same process; its stability is '
             're-checked on every difference (and on a sample of agreements) by asking a third fresh project',
